@@ -57,6 +57,9 @@ def run(chk: core.Check, tier: str, seed: int) -> None:
         for _ in range(6):
             pre = rng.choice(["$\n.a", "$ \n\n[0]", "$['a',\n'b']\n", "$\r\n.x"])
             texts.append(pre + inject(q[1:].replace("(", "( ").replace("==", " == "), rng))
+    for t in corpus.literal_queries():
+        texts.append(t)
+        texts.append("$.a\n" + t[1:])
     for t in corpus.skeletons(rng):
         texts.append(t)
         texts.append(inject(t.replace("(", "( ").replace("==", " == ").replace("&&", " && "), rng))
